@@ -3,6 +3,7 @@ package pure
 import (
 	"errors"
 	"testing"
+	"time"
 
 	v1 "github.com/akramarenkov/cqos/priority"
 	v2 "github.com/akramarenkov/cqos/v2/priority"
@@ -88,15 +89,13 @@ func newResult(fn string, ps []uint, q uint) string {
 		chans = append(chans, ch)
 		inputs[p] = ch
 	}
+	if stuckDisciplines >= maxStuck {
+		return "skipped"
+	}
 	dsc, err := v2.New(v2.Opts[int]{Divider: d, HandlersQuantity: q, Inputs: inputs})
 	switch {
 	case err == nil:
-		for _, ch := range chans {
-			close(ch)
-		}
-		for range dsc.Output() {
-		}
-		<-dsc.Err()
+		shutdown(dsc, chans)
 		return "ok"
 	case errors.Is(err, v2.ErrHandlersQuantityTooSmall):
 		return "toosmall"
@@ -106,6 +105,32 @@ func newResult(fn string, ps []uint, q uint) string {
 		return "zero"
 	default:
 		return "other:" + err.Error()
+	}
+}
+
+// A discipline the constructor accepted is shut down by closing its (empty) inputs.  A constructor that wrongly accepts a
+// configuration (say, a priority with a zero share) can produce a discipline that never terminates: the recorder must not hang on
+// it (the recorded "ok" is what the specification judges), so the wait is bounded, and after maxStuck abandoned disciplines (each
+// keeps polling) no further ones are created (records "skipped", ignored by the invariants).
+const maxStuck = 16
+
+var stuckDisciplines int
+
+func shutdown(dsc *v2.Discipline[int], chans []chan int) {
+	for _, ch := range chans {
+		close(ch)
+	}
+	done := make(chan struct{})
+	go func() {
+		for range dsc.Output() {
+		}
+		<-dsc.Err()
+		close(done)
+	}()
+	select {
+	case <-done:
+	case <-time.After(time.Second):
+		stuckDisciplines++
 	}
 }
 
@@ -145,17 +170,15 @@ func newWithFault(fn string, ps []uint, q uint, kind string) (string, uint) {
 		chans = append(chans, ch)
 		inputs[p] = ch
 	}
+	if stuckDisciplines >= maxStuck {
+		return "skipped", 0
+	}
 	dsc, err := v2.New(v2.Opts[int]{Divider: d, HandlersQuantity: q, Inputs: inputs})
 	createTotal := total
 	res := "other"
 	switch {
 	case err == nil:
-		for _, ch := range chans {
-			close(ch)
-		}
-		for range dsc.Output() {
-		}
-		<-dsc.Err()
+		shutdown(dsc, chans)
 		res = "ok"
 	case errors.Is(err, v2.ErrDividerBad):
 		res = "bad"
